@@ -11,7 +11,8 @@ THEOREMS = [(M, "NQ.C16." + n) for n in [
     "encodeInstr_rejects", "encodeSub_rejects", "encoded_never_decodes_differently",
     "sub_never_decodes_differently", "nv_never_differs", "reids_never_differs",
     "vanilla_never_differs_partial", "sdk_rotation_rejects", "encodeSubZ_rejects",
-    "sdk_meas_basis_rejects", "sdk_breakpoint_rejects"]]
+    "sdk_meas_basis_rejects", "sdk_breakpoint_rejects", "encode_rejects_after_update",
+    "encodeSub_rejects_after_update"]]
 TRANSLATORS = ["instr_table"]
 LEVEL_TEXT = ('Lean theorems: for every instruction class (any table, any shape) and every operand list in which '
               'some slot holds a value outside its range (register index not in 0..15 / bank not in 0..3, imm8 not '
@@ -54,7 +55,7 @@ def run(ctx):
     res = Result()
     res.rule = ("every class of every flavour x every integer part of every operand slot x values just outside "
                 "(one past either end), far outside (up to 1e20) and just inside, through direct construction "
-                "(plain, numpy and bool immediates), the text assembler and the SDK (rotations x3 axes x vanilla/"
+                "(plain, numpy and bool immediates; also assigned IN PLACE to an instruction that was serialised before), the text assembler and the SDK (rotations x3 axes x vanilla/"
                 "NV/NV-hardware, measurement bases, app ids); non-trivial = some part out of range; distinct by "
                 "(route, flavour, class, operands)")
     rng = ctx.rng
@@ -136,6 +137,60 @@ def run(ctx):
               mb[4:] if mb is not None else None, exc)
         if len(res.samples) < 3 and bad and res.evaluations % 211 == 0:
             res.samples.append({"route": "text", "fl": fname, "text": txt, "raises": exc, "model": mb})
+
+    # ------------------------------------------------------------ object histories
+    # an instruction that was serialised (and printed) once is given its operand IN PLACE (field
+    # assignment or a property setter such as line / qreg / angle_num) and serialised again: an
+    # unrepresentable operand must still be rejected, a representable one must be what is encoded
+    from harness import text as X
+    hist_cases = []
+    sample = cases if thorough else rng.sample(cases, min(len(cases), 6000))
+    for (fname, c, ops, tag, bad) in sample:
+        j = tag[0]
+        if tag[1] == "none" or not R.renderable(ops):  # a register bank > 3 cannot be built at all
+            continue
+        start = list(ops)
+        start[j] = R.base_operand_json(tag[1], rng)
+        hist_cases.append((fname, c, start, j, ops, bad))
+    hm = ctx.driver.batch([{"op": "codec.encode", "fl": f, "i": {"c": H.T.cls_name(c), "o": ops}}
+                           for f, c, _, _, ops, _ in hist_cases])
+    for (fname, c, start, j, ops, bad), me in zip(hist_cases, hm):
+        cname = H.T.cls_name(c)
+        try:
+            inst = R.build_direct(c, start)
+            first = bytes(inst.serialize())
+            str(inst)
+            via = rng.choice(X.setter_aliases(c)[j])
+            setattr(inst, via, H.operand_from_json(ops[j]))
+        except Exception as e:  # the in-range start could not be built: not a history case
+            res.count("history:setup-raises:" + type(e).__name__)
+            continue
+        try:
+            rb, exc = list(bytes(inst.serialize())), None
+        except Exception as e:
+            rb, exc = None, type(e).__name__
+        res.count("history-set-via:" + ("field" if via in [f.name for f in H.T.operand_fields(c)] else via))
+        judge("history", fname, cname, ops, bad, rb, inst, me.get("b"), exc)
+    # the metadata of a subroutine object: bytes(sub), then sub.app_id = ... in place
+    from netqasm.lang.subroutine import Subroutine
+    for app in [1, 65535, 65536, 70000, 2 ** 32 + 4464, -1]:
+        res.evaluations += 1
+        sub = Subroutine(instructions=[H.instr_from_json({"c": "core.SetInstruction",
+                                                          "o": [{"r": [0, 1]}, {"i": 5}]})],
+                         app_id=0, netqasm_version=(0, 0))
+        bytes(sub)
+        sub.app_id = app
+        try:
+            rb = list(bytes(sub))
+        except Exception:
+            rb = None
+        badm = not 0 <= app <= 65535
+        if badm:
+            res.nontrivial.add(("history-meta", app))
+        res.count(f"history-meta:{'rejected' if rb is None else 'encoded'}")
+        if (rb is None) != badm or (rb is not None and rb[2] + 256 * rb[3] != app):
+            _mk(res, "app id assigned in place after a first serialisation: altered or accepted out of range",
+                {"app": app, "bytes": rb})
 
     # ------------------------------------------------------------ metadata (app id, version)
     meta = []
